@@ -6,5 +6,6 @@ cd "$(dirname "$0")"
 mkdir -p build
 ( cd lean && lake build )
 ( cd harness && CARGO_NET_OFFLINE=true CARGO_TARGET_DIR="$PWD/../build/harness-target" cargo build --offline --release --quiet )
+( cd harness && CARGO_NET_OFFLINE=true CARGO_TARGET_DIR="$PWD/../build/harness-target" cargo build --offline --quiet )
 ./build/harness-target/release/nlharness --unicode build/unicode.txt
 echo setup-ok
